@@ -2,29 +2,34 @@
 # Engine self-test: every seeded change must be reported by the check of its property; every harmless edit must still verify.
 # Runs on scratch copies of /repo (removed immediately). usage: selftest/run.sh [seed-id-prefix]
 export GOFLAGS=-mod=mod GOPROXY=off GOSUMDB=off GOTOOLCHAIN=local
-cd /verif
+# relocatable: V is the verification directory this script lives in (so it can run from a `vp run` snapshot while /verif is edited)
+V=$(cd "$(dirname "$0")/.." && pwd)
+cd $V
+if [ ! -x $V/bin/govc ] || [ -n "$(find $V/engine -name '*.go' -newer $V/bin/govc 2>/dev/null | head -1)" ]; then (cd $V/engine && go build -o $V/bin/govc .) || exit 3; fi
 fail=0
 run_one() { # patch prop expect(fail|pass)
-  D=/root/scratch-selftest-$$; rm -rf $D; mkdir -p $D; rsync -a --exclude .git /repo/ $D/
+  D=/root/scratch-selftest-$$-$RANDOM; rm -rf $D; mkdir -p $D; rsync -a --exclude .git /repo/ $D/
   (cd $D && patch -p1 -s < $1) || { echo "SELFTEST $1: patch does not apply"; rm -rf $D; return 2; }
   (cd $D && go build ./... >/dev/null 2>&1) || { echo "SELFTEST $1: does not compile"; rm -rf $D; return 2; }
-  out=$(/verif/bin/govc check -p $2 -repo $D 2>&1 | grep -E "^VIOLATION|^govc:")
+  out=$($V/bin/govc check -p $2 -repo $D -verif $V 2>&1 | grep -E "^VIOLATION|^govc:")
   rm -rf $D
   nviol=$(echo "$out" | grep -c "^VIOLATION")
   if [ "$3" = fail ] && [ $nviol -eq 0 ]; then echo "SELFTEST MISSED  $1 ($2)"; return 1; fi
   if [ "$3" = pass ] && [ $nviol -ne 0 ]; then echo "SELFTEST FALSE-ALARM $1 ($2): $(echo "$out" | head -2 | cut -c1-200)"; return 1; fi
   echo "SELFTEST ok      $1 ($2 expected $3, $nviol violations)"; return 0
 }
+if [ "$1" != harmless ]; then
 for d in seeded/${1}*/; do
   [ -f $d/meta.json ] || continue
   prop=$(python3 -c "import json;print(json.load(open('$d/meta.json'))['breaks_property'])")
-  run_one /verif/$d/patch.diff $prop fail || fail=1
+  run_one $V/$d/patch.diff $prop fail || fail=1
 done
-if [ -z "$1" ]; then
+fi
+if [ -z "$1" ] || [ "$1" = harmless ]; then
 for h in selftest/harmless/*.diff; do
   [ -f $h ] || continue
   props=$(head -1 $h | sed 's/^# props: //')
-  for p in $props; do run_one /verif/$h $p pass || fail=1; done
+  for p in $props; do run_one $V/$h $p pass || fail=1; done
 done
 fi
 exit $fail
